@@ -41,9 +41,9 @@ theorem expand_uniformOn {α} (t : Text) (hwf : t.WF) (xs : List α) (hl : t.seg
   simpa [Expand.expand] using this
 
 /-- `ParagraphBidiInfo`: under the `Expand` hypothesis all units of a character carry the same level -/
-theorem pbi_levels_uniform (ds : DataSource) (t : Text) (d : Option Nat) (hwf : t.WF) (hfsi : C02.FSIWidth ds t)
+theorem pbi_levels_uniform (ds : DataSource) (t : Text) (d : Option Nat) (hwf : t.WF)
     (hexp : PbiExpand ds t d) : Expand.UniformOn t (paragraphBidiInfo ds t d).levels := by
-  obtain ⟨h1, h2⟩ := pbi_levels_expand ds t d hwf hfsi hexp
+  obtain ⟨h1, h2⟩ := pbi_levels_expand ds t d hwf hexp
   rw [h1]
   exact expand_uniformOn t hwf _ h2.symm
 
@@ -54,7 +54,7 @@ theorem slice_getElem? {α} (xs : List α) (a b i : Nat) (h1 : a ≤ i) (h2 : i 
 
 /-- `BidiInfo`: under the `Expand` hypothesis for the paragraphs' sub-texts all units of a character carry
     the same level -/
-theorem multi_levels_uniform (ds : DataSource) (t : Text) (d : Option Nat) (hwf : t.WF) (hfsi : C02.FSIWidth ds t)
+theorem multi_levels_uniform (ds : DataSource) (t : Text) (d : Option Nat) (hwf : t.WF)
     (hexp : ∀ p ∈ (bidiInfo ds t d).paras, PbiExpand ds (t.subrange p.start p.stop) d) :
     Expand.UniformOn t (bidiInfo ds t d).levels := by
   obtain ⟨chunks, h⟩ := paras_structure ds t d hwf
@@ -68,9 +68,13 @@ theorem multi_levels_uniform (ds : DataSource) (t : Text) (d : Option Nat) (hwf 
   obtain ⟨f, hw, _⟩ := chunk_good hwf h ch hch
   have hw' : (t.subrange (chunkStart ch) (chunkStop ch)).WF := hw
   have hsl : (paragraphBidiInfo ds (t.subrange (chunkStart ch) (chunkStop ch)) d).levels
-      = slice (bidiInfo ds t d).levels (chunkStart ch) (chunkStop ch) := (C10.C10_slice ds t hwf d _ hp).2.1
-  have he : PbiExpand ds (t.subrange (chunkStart ch) (chunkStop ch)) d := hexp _ hp
-  have hu := pbi_levels_uniform ds _ d hw' (subrange_FSIWidth ds t _ _ hfsi) he
+      = slice (bidiInfo ds t d).levels (chunkStart ch) (chunkStop ch) := by
+    have := (C10.C10_slice ds t hwf d _ hp).2.1
+    simpa only [mkPara] using this
+  have he : PbiExpand ds (t.subrange (chunkStart ch) (chunkStop ch)) d := by
+    have := hexp _ hp
+    simpa only [mkPara] using this
+  have hu := pbi_levels_uniform ds _ d hw' he
   rw [hsl] at hu
   have hmem : ({ s with start := s.start - chunkStart ch } : Seg) ∈
       (t.subrange (chunkStart ch) (chunkStop ch)).segs := by
